@@ -40,6 +40,8 @@ def correspondence(ctx):
         cases.append(f'prof|op|enforce|f|b|{hexs(s_)}|')
     for s_ in straddle_strings(maxn=24 if ctx.tier == 'quick' else 130):
         cases.append(f'prof|op|enforce|f|b|{hexs(s_)}|')
+    for s_ in structured_strings(ctx, 600 if ctx.tier == 'quick' else 8000, ['filler_ascii', 'filler_2', 'filler_3', 'filler_4', 'cased', 'wide', 'space', 'space', 'marks', 'marks', 'compat', 'hangul', 'ctx']):
+        cases.append(f'prof|op|enforce|f|b|{hexs(s_)}|')
     cases += fuzz_cases(ctx, {2, 7, 10})      # coverage-guided search of the tree under check (only when the source changed / thorough)
     res = run_cases(cases, ctx.work)
     zset = set(zs)
